@@ -25,6 +25,17 @@ class NumEval(ArithEval):
         return self._ev(t)
 
     def _ev(self, t):
+        if isinstance(t, tuple) and t and t[0] == "constitem":
+            consts = self.__dict__.get("consts") or {}
+            if t[1] in consts:
+                return consts[t[1]]
+            std = {"core::f64::consts::PI": math.pi, "core::f64::consts::FRAC_PI_2": math.pi / 2, "core::f64::consts::FRAC_PI_4": math.pi / 4, "core::f64::consts::TAU": 2 * math.pi,
+                   "core::f64::EPSILON": 2.220446049250313e-16, "core::f64::MAX": 1.7976931348623157e308}
+            if t[1] in std:
+                return std[t[1]]
+            raise NoModel("constant %s" % t[1])
+        if isinstance(t, tuple) and t and t[0] == "bin" and t[1] == "Rem":
+            return math.fmod(float(self.ev(t[2])), float(self.ev(t[3])))
         if isinstance(t, tuple) and t and t[0] == "field" and str(t[2]) in ("x", "y"):
             b = self.ev(t[1])
             if isinstance(b, dict) and str(t[2]) not in b and "0" in b and isinstance(b["0"], dict):
@@ -53,6 +64,25 @@ class NumEval(ArithEval):
                 return float(self.ev(a[0])) ** int(self.ev(a[1]))
             if m == "mul_add" and len(a) == 3:
                 return self.ev(a[0]) * self.ev(a[1]) + self.ev(a[2])
+            if m in ("sin", "cos", "tan", "asin", "acos", "atan", "ln", "exp", "sinh", "cosh", "tanh", "floor", "ceil", "round", "trunc") and len(a) == 1:
+                f = {"ln": math.log, "round": lambda v: float(round(v))}.get(m) or getattr(math, m)
+                return float(f(float(self.ev(a[0]))))
+            if m == "atan2" and len(a) == 2:
+                return math.atan2(float(self.ev(a[0])), float(self.ev(a[1])))
+            if m == "sin_cos" and len(a) == 1:
+                v = float(self.ev(a[0]))
+                return (math.sin(v), math.cos(v))
+            if m == "to_radians" and len(a) == 1:
+                return math.radians(float(self.ev(a[0])))
+            if m == "to_degrees" and len(a) == 1:
+                return math.degrees(float(self.ev(a[0])))
+            if m == "rem" and len(a) == 2:
+                return math.fmod(float(self.ev(a[0])), float(self.ev(a[1])))
+            if m == "signum" and len(a) == 1:
+                v = float(self.ev(a[0]))
+                return math.copysign(1.0, v)
+            if m in ("from", "from_f64", "from_f32", "from_i32", "from_usize", "from_u32") and len(a) == 1 and ("NumCast" in t[1] or "FromPrimitive" in t[1] or "num_traits" in t[1]):
+                return Enum(OPT, "Some", [self.ev(a[0])])
             if m == "epsilon" and not a:
                 return 2.220446049250313e-16
             if m in ("max_value", "infinity") and not a:
